@@ -333,6 +333,9 @@ _p('C10', 'translation_validation',
     Part('decl', {'super': True}, kind='diff', diff=CPY, quick=1500, thorough=100000, name='diff/decl'),
     Part('graph', {'props': ['C02', 'C03']}, kind='diff', diff=CPY, quick=2000, thorough=80000, name='diff/graph'),
     Part('graph', {'props': ['C15'], 'ifaces_only': True}, kind='diff', diff=CPY, quick=1200, thorough=50000, name='diff/graph-attrs'),
+    # strict configuration: what a specification answers after strict mode refused a re-basing of it is logged (not judged
+    # against the model -- the propagation was aborted) and has to be the same in both implementations
+    Part('graph', {'props': ['C02', 'C03']}, kind='diff', diff=[C_STRICT, PY_STRICT], quick=1200, thorough=50000, name='diff/graph-strict'),
     Part('registry', {'props': ['C04'], 'shape': 'dynamic', 'raising_factories': True, 'log_answers': True}, kind='diff', diff=CPY,
          quick=2000, thorough=80000, name='diff/registry', timeout=40.0),
     Part('adapt', {}, kind='diff', diff=CPY, quick=1500, thorough=60000, name='diff/adapt'),
